@@ -609,6 +609,13 @@ def annotations(chk, ex, b, explore):
 
 
 def witnesses(chk):
+    # a named, annotated type shared between a query parameter and a response body keeps its annotations in components.schemas
+    case = {'op': 'openapi', 'endpoints': [], 'orders': [[]], 'versions': ['1.0.0']}
+    r = replay([case])[0]
+    chk.replayed += 1
+    st = r.get('shared_type') or {}
+    if not (st.get('example') == 'ByName' and 'description' in st and len(st.get('oneOf', [])) == 2 and r.get('refs_resolve')):
+        chk.counterexample(f'a type used as query parameter member and in a response body is published as {st} (annotations of its schema lost, or dangling $ref)', case, True, role='wire:shared-type')
     cases = [{'op': 'j2oas', 'schema': s_} for s_ in [
         {'type': 'integer', 'format': 'int32', 'minimum': -40.0, 'maximum': 50.0}, {'type': 'integer', 'minimum': -273.0, 'maximum': -1.0, 'multipleOf': 3.0},
         {'type': 'integer', 'exclusiveMinimum': -5.0, 'exclusiveMaximum': 5.0}, {'type': 'number', 'format': 'double', 'minimum': -1.5, 'exclusiveMaximum': 2.25},
